@@ -496,6 +496,14 @@ func (c *Ctx) originRaw(in ssa.Instruction, x ssa.Value, d int) string {
 		if fr, ok := core.AsFieldLoad(o); ok {
 			return fr.Owner + "." + fr.Field
 		}
+		// append([]T(nil), xs...): a copy of xs, as long as xs
+		if core.CalleeName(o.Common()) == "builtin.append" && len(o.Common().Args) == 2 && core.IsNilConst(o.Common().Args[0]) {
+			if _, isSlice := o.Common().Args[1].Type().Underlying().(*types.Slice); isSlice {
+				if _, lit := o.Common().Args[1].(*ssa.Slice); !lit {
+					return c.originRaw(in, o.Common().Args[1], d+1)
+				}
+			}
+		}
 		// a private step that hands back what another call produced (`return g.EdgeToPath(…)`)
 		if h := o.Common().StaticCallee(); h != nil && c.P.PrivateHelper(h) && h.Signature.Results().Len() == 1 {
 			srcs := map[string]bool{}
